@@ -301,10 +301,13 @@ def generate(prop, rng, tier):
     nops = rng.randint(6, 14) if tier == 'quick' else rng.randint(10, 30)
     e = gen.edges(wp)
     ops = []
+    big = tier == 'thorough' and rng.random() < 0.4      # deeper bounds in the thorough tier
+    nmax, nspk = (8, 14) if big else (6, 8)
     if prop == 'C18':
-        pool = gen.gen_degenerate_pool(rng, wp) if rng.random() < 0.7 else gen.gen_pool(rng, wp)
+        pool = gen.gen_degenerate_pool(rng, wp, nmax=nmax) if rng.random() < 0.7 else \
+            gen.gen_pool(rng, wp, nmax=nmax, nspk=nspk)
     else:
-        pool = gen.gen_pool(rng, wp)
+        pool = gen.gen_pool(rng, wp, nmax=nmax, nspk=nspk)
     specs = [{'s': s, 'e': list(e)} for s in pool]
 
     if prop == 'C05':
